@@ -11,6 +11,8 @@ from ..pools import RecPool
 from . import C08
 
 STREAMS = ["linear", "rel", "switch", "stepwise", "buffer", "factory", "factory_env", "buffer_float"]
+REGENERATE_SRC = True
+DRIVER_DEPENDS_ON_GENERATED = True
 RULE = ("every shipped periodic service is run by trio.run(run, clock=MockClock(autojump_threshold=0)) next to a "
         "scripted environment task; intervals / windows are dyadic, 20..120 periods (thorough up to 500); environment "
         "actions (pool state changes, demand writes through a Buffer) are placed before, on and after period "
